@@ -15,9 +15,24 @@ class Ctx(object):
         import json as _json
         try:
             with open(os.path.join(os.path.dirname(os.path.dirname(os.path.abspath(__file__))), 'spec', 'known_functions.json')) as fh:
-                known = set(_json.load(fh)['functions'])
+                ref_ = _json.load(fh)
+                known = set(ref_['functions'])
         except Exception:
             known = None
+            ref_ = {}
+        # a listed function whose parameters still have the listed types gets the listed parameter names:
+        # the rules name parameters, and renaming one changes nothing a rule is about
+        for m in self.modules:
+            for n, f in m.funcs.items():
+                want = (ref_.get('params') or {}).get(n)
+                if want and len(want) == len(f.params) and all(w[0] == p_.ty for w, p_ in zip(want, f.params)):
+                    for w, p_ in zip(want, f.params):
+                        if w[1]:
+                            old = f.param_names.get(p_.name)
+                            f.param_names[p_.name] = w[1]
+                            for r_, nm_ in list(f.var_names.items()):
+                                if old and nm_ == old:
+                                    f.var_names[r_] = w[1]
         self.unknown_funcs = set()
         if known is not None:
             for m in self.modules:
